@@ -559,3 +559,74 @@ def check_swap_sem(ctx):
         ctx.holds('SWAP-SEM', meth,
                   f'remove_node: the {count} abstract graphs end with the '
                   f'rows of the mathematical removal', at=meth.where())
+
+
+# ----------------------------------------------------------- TOPO-CYCLE ---
+
+def check_topo_cycle(ctx):
+    """topological_sort() either returns EVERY node or raises: where is the
+    cycle detected?  Two families are recognised.  Depth-first (the shipped
+    code): the raise sits in the recursive visitor, under a test - a node met
+    again while still open.  Iterative (Kahn, in-degree counting): the
+    work-list loop simply runs dry when it reaches a cycle; the nodes on the
+    cycle - and everything that depends on them - are then missing from the
+    result, so a raise must FOLLOW the loop, under a test that compares what
+    was emitted with what the graph holds.  A raise before the loop only (no
+    node without dependencies at all) misses every cycle that hangs below
+    an acyclic part."""
+    program = ctx.program
+    klass = program.cls(DG)
+    meth = klass.methods.get('topological_sort')
+    if meth is None:
+        raise AnalysisError('DepGraph.topological_sort not found')
+    program.consulted.add(klass.module.relpath)
+    raises = [n for n in ast.walk(meth.node) if isinstance(n, ast.Raise)]
+    ctx.floor('TOPO-CYCLE', len(raises), 1, 'raise in topological_sort')
+    nested = [n for n in ast.walk(meth.node)
+              if isinstance(n, ast.FunctionDef) and n is not meth.node]
+    recursive = [f for f in nested if any(
+        isinstance(c, ast.Call) and isinstance(c.func, ast.Name) and
+        c.func.id == f.name for c in ast.walk(f))]
+    where = meth.where(raises[0])
+    if recursive:
+        inside = [r for r in raises
+                  if any(r in list(ast.walk(f)) for f in recursive)]
+        guarded = [r for r in inside if any(
+            isinstance(i, ast.If) and r in list(ast.walk(i))
+            for f in recursive for i in ast.walk(f))]
+        ctx.decide('TOPO-CYCLE', meth,
+                   f'depth-first sort: the cycle is detected in the '
+                   f'recursive visitor {recursive[0].name}() '
+                   f'({len(guarded)} guarded raise)', bool(guarded),
+                   at=where,
+                   detail=None if guarded else 'no raise in the visitor')
+        return
+    loops = [n for n in meth.node.body if isinstance(n, (ast.While,
+                                                        ast.For))]
+    worklist = [n for n in loops if isinstance(n, ast.While)]
+    if not worklist:
+        ctx.undecided('TOPO-CYCLE', meth, 'neither a recursive visitor nor '
+                      'a work-list loop: algorithm not recognised',
+                      at=where)
+        return
+    last = worklist[-1]
+    pos = meth.node.body.index(last)
+    after = [r for r in raises if any(
+        r in list(ast.walk(stmt)) for stmt in meth.node.body[pos + 1:] +
+        list(last.orelse))]
+    checked = [r for r in after if any(
+        isinstance(i, ast.If) and r in list(ast.walk(i)) and any(
+            isinstance(c, ast.Call) and call_name(c) in ('len', 'any', 'all',
+                                                         'sum')
+            for c in ast.walk(i.test))
+        for stmt in meth.node.body[pos + 1:] for i in ast.walk(stmt))]
+    ctx.decide('TOPO-CYCLE', meth,
+               'iterative sort: a raise follows the work-list loop, under a '
+               'test on what was emitted / what is left'
+               if checked else
+               'iterative sort: no raise after the work-list loop',
+               bool(checked), at=meth.where(last),
+               detail=None if checked else
+               'the loop runs dry on a cycle that is reachable from an '
+               'acyclic part: its nodes and their dependents are silently '
+               'missing from the result instead of DepGraphError')
